@@ -111,6 +111,8 @@ func checkC13(p *Prog, r *Report) {
 	r.rule("C13.W5d", "a Read that consumed data passes the read token on before returning whenever data remains readable (len(bufptr) > 0 or PeekSize() > 0)", 3)
 	r.rule("C13.W6", "die is closed only inside dieOnce.Do; a second Close returns an error; socket errors are stored before their channel is closed", 5)
 	r.rule("C13.W7", "Read tests buffered data before blocking on a select that contains die; WriteBuffers passes a non-blocking die/error test before every kcp.Send", 2)
+	r.rule("C13.W13", "after Close, Read first drains what had been received: the unread tail of a partially read message is modified by Read alone (= C01.S10 ownership half)", 2)
+	r.rule("C13.W12", "no deadlock by lock order: the relation 'acquired while held' between the mutex classes of the package (interprocedural: held at a call site, acquired anywhere below it) has no cycle — a goroutine blocked in such a cycle, and every Read/Write/Accept/Close waiting for one of its locks, never wakes", 1)
 	r.rule("C13.W11", "every transmit function reports a failed socket write: from err != nil of WriteTo/WriteBatch every path calls notifyWriteError, or the error is returned and no caller discards it", 2)
 	r.rule("C13.W10", "a deadline change reaches every goroutine blocked on that deadline: the wake-up is a broadcast (close of a channel), or a caller woken through the one-slot event channel passes the token on before it blocks again without having made progress", 0)
 	r.rule("C13.W9", "every receive loop reports a failed socket read: from err != nil every path to the return calls notifyReadError of the loop's owner (sessions may skip it only when the session itself is closed); the listener's notifyReadError propagates to every session it owns", 3)
@@ -118,6 +120,8 @@ func checkC13(p *Prog, r *Report) {
 
 	checkReadErrorReporting(p, r)
 	checkWriteErrorReporting(p, r)
+	checkLockOrder(p, r, "C13.W12")
+	checkCarryOverOwnedByRead(p, r, "C13.W13")
 
 	// ---- wait functions
 	var waits []*waitFunc
